@@ -142,6 +142,7 @@ structure Facts where
   initOnly : List Nat                 -- functions that run only below the package initialisers
   globals : List Nat                  -- locations that are package-level variables (or their elements)
   guards : List (Nat × Nat × Bool)    -- declared guards: (location, mutex, reads must hold it too)
+  immutable : List Nat                -- locations declared never written after package initialisation
   goStmts : Nat                       -- `go` statements inside the packages
 
 /-! ### The abstract program a table describes
@@ -293,5 +294,16 @@ entries or nodes of a set would be shared by every set of the process while its 
 level is seen: a reference loaded from a field of such an object is named by the field.) -/
 def NoGlobalEscapes (F : Facts) : Bool :=
   allIdx F.fns (fun i fn => fn.leaks.all (fun l => !Nat.beq l.allow 0 || memN i F.initOnly))
+
+/-- ImmutableLocations: the locations declared immutable in allow.json (the (type, field) names
+of the memory that hangs below the shared package-level tables: `Number.*`, `YRange.*`) are written
+by no function that runs after package initialisation — tagged or not, locked or not.  Like
+`NoGlobalEscapes` this checks an assumption of the model instead of feeding a theorem: objects
+below package-level variables are reached by every module set (as the parents of its own range
+and length restrictions), and (type, field) names cannot tell them from private memory, so the
+only checkable form of "read-only by convention" is that nothing of that name is ever stored to
+through a pointer. -/
+def ImmutableLocations (F : Facts) : Bool :=
+  allIdx F.fns (fun i fn => fn.writes.all (fun w => !memN w.tgt F.immutable || memN i F.initOnly))
 
 end Goyang.Model.Lockset
